@@ -18,6 +18,7 @@ EXPLANATION = (
     "argument exactly when it `is not None` (truthiness would lose the legal tag 0) and otherwise the default read "
     "through the dynamic class of self (type(self) / self.__class__), never through a named class. R-ATOMIC + keyed "
     "store/delete discipline for the class-level and the instance-level component API (R-SIB: both agree).")
+EXPLANATION += (' get_class_component / get_component are three-case lookups without truthiness; a subclass constructor passes only None or its own None-defaulted parameter as tag.')
 ASSUMPTIONS = ["metaclass __init__ runs for every class statement (language fact)", "user hierarchies have no metaclass conflicts"]
 
 META = CORE + '_MetaAgent'
